@@ -272,6 +272,30 @@ func cmdC08Oracle(args []string) {
 			samples = append(samples, fmt.Sprintf("%s: verdict %s; first invocation: %v", p.Root.coq(), o.Verdict, o.Runs[0].Rep))
 		}
 	}
+	// a non-fatal failure deep inside an action (a Custom generator inside a Custom generator, then a skip): the
+	// machine stops; it is neither a rejected step nor a reason to go on
+	{
+		leaf := &Gen{Op: "uint", Kind: "Uint64", Variant: "range", UMin: 0, UMax: 3}
+		inner := &Gen{Op: "custom", Body: &Stmt{Op: "draw", G: leaf, Next: &Stmt{Op: "fail", Kind: "error", Variant: "errorf", Id: 1, Msg: 7,
+			Next: &Stmt{Op: "skip", Variant: "skip", Msg: 3}}}}
+		outer := &Gen{Op: "custom", Body: &Stmt{Op: "draw", G: inner, Next: &Stmt{Op: "ret", E: cvar(0)}}}
+		act := &Stmt{Op: "draw", G: outer, Next: &Stmt{Op: "ret", E: &VExp{Op: "add", A: cvar(0), B: cconst(zv(1))}}}
+		chk := &Stmt{Op: "log", Msg: 9, Next: retUnit()}
+		p := NewProgram(&Stmt{Op: "repeat", Id: 2, E: cconst(zv(0)), A: chk, Acts: []*Stmt{act}, Next: retUnit()})
+		o := RunCheck(p, "T", 5, *seed|1, 0)
+		stats["nested_custom_failure_runs"]++
+		for j, run := range o.Runs {
+			if msg := checkRepeat(run.Rep); msg != "" {
+				fails = append(fails, map[string]any{"property": "C08", "what": "state-machine discipline violated: " + strings.SplitN(msg, ": ", 2)[len(strings.SplitN(msg, ": ", 2))-1],
+					"detail": msg, "invocation": j, "events": run.Rep, "program": p.Root.coq(), "index": -2})
+				break
+			}
+		}
+		if !(o.Verdict == "failed" || o.Verdict == "panic") {
+			fails = append(fails, map[string]any{"property": "C08", "what": "state-machine discipline violated: a falsification inside an action did not stop the machine and fail the test case",
+				"detail": o.Verdict + " " + o.Msg, "program": p.Root.coq(), "index": -2})
+		}
+	}
 	// the no-valid-action case: a machine whose only action always skips must fail, not hang
 	{
 		act := &Stmt{Op: "skip", Variant: "skip", Msg: 1}
